@@ -187,7 +187,7 @@ theorem Keeps.freadAll : Keeps freadAll := by
   intro e s r s' h; exact Keeps.fread _ e s r s' h
 
 theorem Keeps.findLastM (serial : Nat) : Keeps (findLastM serial) := by
-  unfold OggInj.findLastM
+  unfold OggInj.findLastM OggInj.findLastMW
   apply Keeps.bind (Keeps.seekEndBy _); intro _
   apply Keeps.bind Keeps.freadAll; intro data
   split
@@ -260,13 +260,13 @@ theorem Keeps.loadM (c : Codec) : Keeps (loadM c) :=
 
 /-! ### what load can raise, in every environment -/
 
-/-- inside the `try` of `load`: EOFError, ogg.error, IndexError (`to_packets`: `packets[-1]` / `[0]` on an empty
-list — excluded on the bytes by the C04 closure, not excluded here for pages read under faults), and what the
-file primitives raise (injected, ValueError, IOError, the non-termination marker) -/
-def LoadErr (e : Env) (x : PyErr) : Prop := x = .eof ∨ x = .mutagen ∨ x = .index ∨ PrimErr e x
+/-- inside the `try` of `load`: EOFError, ogg.error, and what the file primitives raise (injected, ValueError,
+IOError, the non-termination marker).  No IndexError: the pages `to_packets` gets were read by `OggPage(fileobj)`,
+and an incomplete page that was read holds a packet, whatever the environment (`post_readPageM`). -/
+def LoadErr (e : Env) (x : PyErr) : Prop := x = .eof ∨ x = .mutagen ∨ PrimErr e x
 
-theorem loadErr_inj {e : Env} {x : PyErr} (h : Injected e x) : LoadErr e x := Or.inr (Or.inr (Or.inr (inj_prim h)))
-theorem loadErr_prim {e : Env} {x : PyErr} (h : PrimErr e x) : LoadErr e x := Or.inr (Or.inr (Or.inr h))
+theorem loadErr_inj {e : Env} {x : PyErr} (h : Injected e x) : LoadErr e x := Or.inr (Or.inr (inj_prim h))
+theorem loadErr_prim {e : Env} {x : PyErr} (h : PrimErr e x) : LoadErr e x := Or.inr (Or.inr h)
 theorem loadErr_mutagen (e : Env) : LoadErr e .mutagen := Or.inr (Or.inl rfl)
 theorem loadErr_diverge (e : Env) : LoadErr e .diverge := loadErr_prim (prim_diverge e)
 
@@ -418,7 +418,7 @@ theorem raises_fileLen {P : Env → PyErr → Prop} : Raises P fileLen := by
   intro e s err s' h; simp [fileLen] at h
 
 theorem raises_findLastM (serial : Nat) : Raises LoadErr (findLastM serial) := by
-  unfold findLastM
+  unfold findLastM findLastMW
   apply Raises.bind ((raises_seekEndBy _).weaken fun _ _ => loadErr_prim); intro _
   apply Raises.bind (P := LoadErr) (m := freadAll)
   · intro e s err s' h
@@ -478,27 +478,182 @@ theorem loadComment_err (c : Codec) (d : Bytes) (x : PyErr) (h : loadComment c d
       repeat' (split at h)
       all_goals cases h
 
-theorem raises_tagsM (c : Codec) (serial : Nat) : Raises LoadErr (tagsM c serial) := by
-  unfold tagsM
-  apply Raises.bind (P := LoadErr) raises_fileLen; intro n
-  apply Raises.bind (P := LoadErr)
-  · cases c
-    case opus => exact Raises.bind (raises_scanM _ _) fun _ => raises_collectM _ _ _ _
-    all_goals exact raises_readLoopM _ _ _
-  intro pages
+/-! ### what a program returns when it returns, in every environment -/
+
+def Post (Q : α → Prop) (m : FileM α) : Prop := ∀ e s a s', m e s = (.ok a, s') → Q a
+
+theorem Post.pure {Q : α → Prop} (a : α) (h : Q a) : Post Q (pure a : FileM α) := by
+  intro e s b s' hb; simp only [pure_run, Prod.mk.injEq, Except.ok.injEq] at hb; exact hb.1 ▸ h
+
+theorem Post.raise {Q : α → Prop} (x : PyErr) : Post Q (raise x : FileM α) := by
+  intro e s b s' hb; simp at hb
+
+theorem Post.bind' {R : α → Prop} {Q : β → Prop} {m : FileM α} {f : α → FileM β} (hm : Post R m)
+    (hf : ∀ a, R a → Post Q (f a)) : Post Q (m >>= f) := by
+  intro e s b s' h
+  simp only [bind_run] at h
+  cases hms : m e s with
+  | mk r s1 =>
+    rw [hms] at h
+    cases r with
+    | ok a => exact hf a (hm e s a s1 hms) e s1 b s' h
+    | error x => simp at h
+
+theorem Post.bind {Q : β → Prop} {m : FileM α} {f : α → FileM β} (hf : ∀ a, Post Q (f a)) : Post Q (m >>= f) :=
+  Post.bind' (R := fun _ => True) (fun _ _ _ _ _ => trivial) (fun a _ => hf a)
+
+/-- an incomplete page holds a packet -/
+def Inc (p : Page) : Prop := p.complete = false → p.packets ≠ []
+
+theorem post_readPageM : Post (fun r => Inc r.1) readPageM := by
+  unfold readPageM
+  apply Post.bind; intro off
+  apply Post.bind; intro hdr
+  split
+  · exact Post.raise _
+  split
+  · exact Post.raise _
+  split
+  · exact Post.bind fun _ => Post.raise _
+  simp only
+  split
+  · exact Post.raise _
+  apply Post.bind; intro lac
+  split
+  · exact Post.raise _
+  apply Post.bind; intro ps
+  split
+  · exact Post.raise _
+  · rename_i hn
+    apply Post.pure
+    intro hc hps
+    simp only at hc hps
+    have := unlace_incomplete _ 0 hc
+    rw [hps] at hn
+    simp only [List.map_nil, ne_eq, Decidable.not_not] at hn
+    exact this hn.symm
+
+theorem Post.and {Q R : α → Prop} {m : FileM α} (h1 : Post Q m) (h2 : Post R m) : Post (fun a => Q a ∧ R a) m :=
+  fun e s a s' h => ⟨h1 e s a s' h, h2 e s a s' h⟩
+
+theorem post_scanM (pred : Page → Bool) (fuel : Nat) : Post (fun r => pred r.1 = true ∧ Inc r.1) (scanM pred fuel) := by
+  induction fuel with
+  | zero => exact Post.raise _
+  | succ n ih =>
+    unfold scanM
+    refine Post.bind' (Q := fun (r : Page × Nat) => pred r.1 = true ∧ Inc r.1) post_readPageM ?_; intro r hr
+    split
+    · rename_i hp; exact Post.pure _ ⟨hp, hr⟩
+    · exact ih
+
+/-- the tag constructors' loop returns what it was given, pages that leave their only packet open (and so hold
+one), and a last page -/
+theorem post_readLoopM (serial fuel : Nat) (acc : List Page) :
+    Post (fun ps => ∃ more l, ps = acc ++ more ++ [l] ∧ ∀ x ∈ more, x.packets ≠ []) (readLoopM serial fuel acc) := by
+  induction fuel generalizing acc with
+  | zero => exact Post.raise _
+  | succ n ih =>
+    unfold readLoopM
+    refine Post.bind' (Q := fun ps => ∃ more l, ps = acc ++ more ++ [l] ∧ ∀ x ∈ more, x.packets ≠ []) post_readPageM ?_; intro r hr
+    split
+    · split
+      · exact Post.pure _ ⟨[], r.1, by simp, by simp⟩
+      · rename_i hcl
+        intro e s ps s' h
+        obtain ⟨more, l, he, hm⟩ := ih (acc ++ [r.1]) e s ps s' h
+        refine ⟨r.1 :: more, l, by rw [he]; simp, ?_⟩
+        intro x hx
+        simp only [List.mem_cons] at hx
+        rcases hx with rfl | hx
+        · apply hr
+          simp only [Bool.or_eq_true, not_or, Bool.not_eq_true] at hcl
+          exact hcl.1
+        · exact hm x hx
+    · exact ih acc
+
+theorem post_collectM (serial fuel : Nat) (acc : List Page) (last : Page) :
+    Post (fun ps => ∃ more, ps = acc ++ more) (collectM serial fuel acc last) := by
+  induction fuel generalizing acc last with
+  | zero => exact Post.raise _
+  | succ n ih =>
+    unfold collectM
+    split
+    · exact Post.pure _ ⟨[], by simp⟩
+    · refine Post.bind (Q := fun ps => ∃ more, ps = acc ++ more) ?_; intro r
+      split
+      · intro e s ps s' h
+        obtain ⟨more, he⟩ := ih (acc ++ [r.1]) r.1 e s ps s' h
+        exact ⟨r.1 :: more, by rw [he]; simp⟩
+      · exact ih acc last
+
+/-- `Raises` through a bind, using what the first program returns -/
+theorem Raises.bind_post {P : Env → PyErr → Prop} {R : α → Prop} {m : FileM α} {f : α → FileM β}
+    (hm : Raises P m) (hp : Post R m) (hf : ∀ a, R a → Raises P (f a)) : Raises P (m >>= f) := by
+  intro e s err s' h
+  simp only [bind_run] at h
+  cases hms : m e s with
+  | mk r s1 =>
+    rw [hms] at h
+    cases r with
+    | ok a => exact hf a (hp e s a s1 hms) e s1 err s' h
+    | error er =>
+      simp only [Prod.mk.injEq, Except.error.injEq] at h
+      exact h.1 ▸ hm e s er s1 hms
+
+/-- the pages the tag constructor collected: `to_packets` on them does not raise IndexError and (Opus) returns at
+least one packet — the first page holds a packet, or it is the only page -/
+theorem tags_tail_raises (c : Codec) (p : Page) (rest : List Page) (h : p.packets = [] → rest = [])
+    (hopus : c = .opus → p.packets ≠ []) :
+    Raises LoadErr (match toPackets (p :: rest) false with
+      | .error e => raise e
+      | .ok [] => if c = .opus then raise .index else raise .mutagen
+      | .ok (p0 :: _) =>
+        match loadComment c (stripPrefix c p0) with
+        | .error e => raise e
+        | .ok (padding, padData) => pure (stripPrefix c p0, padding, padData) : FileM (Bytes × Nat × Bytes)) := by
   split
   · rename_i x hx
-    rcases toPackets_err _ _ _ hx with h | h
-    · rw [h]; exact Raises.raise _ (fun e => loadErr_prim (prim_value e))
-    · rw [h]; exact Raises.raise _ (fun _ => Or.inr (Or.inr (Or.inl rfl)))
-  · split
-    · exact Raises.raise _ (fun _ => Or.inr (Or.inr (Or.inl rfl)))
+    rcases toPackets_err _ _ _ hx with h1 | h1
+    · rw [h1]; exact Raises.raise _ (fun e => loadErr_prim (prim_value e))
+    · rw [h1] at hx; exact absurd hx (toPackets_no_index p rest h)
+  · rename_i hx
+    split
+    · rename_i hc
+      exact absurd rfl (toPackets_ne_nil p rest [] (hopus hc) hx)
     · exact Raises.raise _ loadErr_mutagen
   · split
     · rename_i x hx
       rw [loadComment_err c _ x hx]
       exact Raises.raise _ loadErr_mutagen
     · exact Raises.pure _ _
+
+theorem raises_tagsM (c : Codec) (serial : Nat) : Raises LoadErr (tagsM c serial) := by
+  unfold tagsM
+  apply Raises.bind (P := LoadErr) raises_fileLen; intro n
+  cases c
+  case opus =>
+    simp only
+    refine Raises.bind_post (P := LoadErr) (R := fun (ps : List Page) => ∃ p more, ps = p :: more ∧ p.packets ≠ [])
+      (Raises.bind (raises_scanM _ _) fun _ => raises_collectM _ _ _ _) ?_ ?_
+    · refine Post.bind' (Q := fun (ps : List Page) => ∃ p more, ps = p :: more ∧ p.packets ≠ []) (post_scanM _ _) ?_
+      intro r hr
+      intro e s ps s' h
+      obtain ⟨more, he⟩ := post_collectM _ _ _ _ e s ps s' h
+      simp only [Bool.and_eq_true] at hr
+      exact ⟨r.1, more, by rw [he]; rfl, startsWith_packets _ _ hr.1.2⟩
+    · intro ps hps
+      obtain ⟨p, more, rfl, hp⟩ := hps
+      exact tags_tail_raises .opus p more (fun hh => absurd hh hp) (fun _ => hp)
+  all_goals
+    simp only
+    refine Raises.bind_post (P := LoadErr) (R := fun (ps : List Page) => ∃ more l, ps = [] ++ more ++ [l] ∧ ∀ x ∈ more, x.packets ≠ [])
+      (raises_readLoopM _ _ _) (post_readLoopM _ _ _) ?_
+    intro ps hps
+    obtain ⟨more, l, rfl, hm⟩ := hps
+    cases more with
+    | nil => exact tags_tail_raises _ l [] (fun _ => rfl) (fun hc => by cases hc)
+    | cons m ms =>
+      exact tags_tail_raises _ m (ms ++ [l]) (fun hh => absurd hh (hm m (by simp))) (fun hc => by cases hc)
 
 theorem raises_postM (serial : Nat) (needLast : Bool) : Raises LoadErr (postM serial needLast) := by
   unfold postM
@@ -518,10 +673,10 @@ theorem raises_loadBodyM (c : Codec) : Raises LoadErr (loadBodyM c) := by
 
 /-- what leaves `OggX(fileobj)`, in every environment: the format's error; ValueError (`verify_fileobj`: ANY
 failure of the probing `read(0)` — the recorded finding); or something the handlers of `load` do not catch:
-IndexError (see `LoadErr`), the model's marker, an injected exception that is none of IOError / ogg.error /
+the model's marker, an injected exception that is none of IOError / ogg.error /
 EOFError / ValueError -/
 def LoadOut (e : Env) (x : PyErr) : Prop :=
-  x = .mutagen ∨ x = .value ∨ ((x = .index ∨ x = .diverge ∨ Injected e x) ∧ loadCaught x = false)
+  x = .mutagen ∨ x = .value ∨ ((x = .diverge ∨ Injected e x) ∧ loadCaught x = false)
 
 theorem raises_loadM (c : Codec) : Raises LoadOut (loadM c) := by
   unfold loadM
@@ -546,7 +701,7 @@ theorem raises_loadM (c : Codec) : Raises LoadOut (loadM c) := by
           simp only [Prod.mk.injEq, Except.error.injEq] at h
           have hx := hb e s x s1 hbs
           rw [← h.1]
-          refine Or.inr (Or.inr ⟨Or.inr (Or.inr hx), ?_⟩)
+          refine Or.inr (Or.inr ⟨Or.inr hx, ?_⟩)
           cases x <;> first | rfl | (exfalso; exact hp (by decide))
   intro _
   intro e s err s' h
@@ -567,24 +722,22 @@ theorem raises_loadM (c : Codec) : Raises LoadOut (loadM c) := by
         have hp' : loadCaught x = false := by simpa using hp
         rw [← h.1]
         refine Or.inr (Or.inr ⟨?_, hp'⟩)
-        rcases hx with hx | hx | hx | hx | hx | hx | hx | hx
+        rcases hx with hx | hx | hx | hx | hx | hx | hx
+        · rw [hx] at hp'; cases hp'
+        · rw [hx] at hp'; cases hp'
+        · exact Or.inr hx
+        · rw [hx] at hp'; cases hp'
         · rw [hx] at hp'; cases hp'
         · rw [hx] at hp'; cases hp'
         · exact Or.inl hx
-        · exact Or.inr (Or.inr hx)
-        · rw [hx] at hp'; cases hp'
-        · rw [hx] at hp'; cases hp'
-        · rw [hx] at hp'; cases hp'
-        · exact Or.inr (Or.inl hx)
 
 /-- … when everything the environment injects is an IOError -/
 theorem loadM_io_faults (c : Codec) (e : Env) (hio : ∀ i x, e.failAt i = some x → x.isIO = true) (s s' : FS) (x : PyErr)
-    (h : loadM c e s = (.error x, s')) : x = .mutagen ∨ x = .value ∨ x = .index ∨ x = .diverge := by
-  rcases raises_loadM c e s x s' h with h1 | h1 | ⟨h1 | h1 | ⟨i, hi⟩, h2⟩
+    (h : loadM c e s = (.error x, s')) : x = .mutagen ∨ x = .value ∨ x = .diverge := by
+  rcases raises_loadM c e s x s' h with h1 | h1 | ⟨h1 | ⟨i, hi⟩, h2⟩
   · exact Or.inl h1
   · exact Or.inr (Or.inl h1)
-  · exact Or.inr (Or.inr (Or.inl h1))
-  · exact Or.inr (Or.inr (Or.inr h1))
+  · exact Or.inr (Or.inr h1)
   · have := hio i x hi
     simp only [loadCaught, this, Bool.true_or] at h2
     cases h2
@@ -722,5 +875,429 @@ theorem slowLastM_q {e : Env} (hq : Quiet e) (serial fuel : Nat) (best : Option 
       · obtain ⟨s2, h2, hd2⟩ := ih best s1 (by rw [hp1, hd1]; exact hle)
         rw [hd1, hp1] at h2
         exact ⟨s2, by simp only [slowLastM, slowLastP, hr, bind_run, tryCatch, h1, hser, ↓reduceIte, pure_run, h2], by rw [hd2, hd1]⟩
+
+theorem fileLen_run (e : Env) (s : FS) : fileLen e s = (.ok s.data.length, s) := rfl
+
+theorem getSize_q' {e : Env} (hq : Quiet e) (s : FS) :
+    ∃ s', getSize e s = (.ok s.data.length, s') ∧ s'.data = s.data := by
+  unfold getSize
+  simp only [bind_run, ftell_q hq, tryFinally, fseekEnd_q hq, fseek_q hq]
+  exact ⟨_, rfl, rfl⟩
+
+theorem seekEndBy_q {e : Env} (hq : Quiet e) (w : Nat) (s : FS) :
+    ∃ s', seekEndBy (w : Int) e s = (.ok (), s') ∧ s'.data = s.data ∧ s'.pos = s.data.length - w := by
+  obtain ⟨s1, h1, hd1⟩ := getSize_q' hq s
+  unfold seekEndBy
+  have hw : ¬ ((w : Int) < 0) := by omega
+  simp only [hw, ↓reduceIte, bind_run, h1, Int.toNat_natCast]
+  split
+  · rename_i hlt
+    rw [fseek_q hq]
+    exact ⟨_, rfl, hd1, by simp only; omega⟩
+  · simp only [bind_run, tick_q hq]
+    exact ⟨_, rfl, hd1, by simp only [hd1]⟩
+
+theorem freadAll_q {e : Env} (hq : Quiet e) (s : FS) (hp : s.pos ≤ s.data.length) :
+    ∃ s', freadAll e s = (.ok (s.data.drop s.pos), s') ∧ s'.data = s.data ∧ s'.pos = s.data.length := by
+  unfold freadAll
+  rw [fread_q hq]
+  have : readAt s.data s.pos (s.data.length - s.pos) = s.data.drop s.pos := by
+    simp only [readAt]; exact List.take_of_length_le (by simp)
+  rw [this]
+  exact ⟨_, rfl, rfl, by simp; omega⟩
+
+theorem slowFrom0_q {e : Env} (hq : Quiet e) (serial : Nat) (best : Option Page) (s2 : FS) :
+    ∃ s', (do fseek 0; slowLastM serial (s2.data.length + 1) best : FileM (Option Page)) e s2 =
+      (slowLastP s2.data serial (s2.data.length + 1) 0 best, s') ∧ s'.data = s2.data := by
+  simp only [bind_run, fseek_q hq]
+  exact slowLastM_q hq serial (s2.data.length + 1) best
+    { data := s2.data, pos := 0, ops := s2.ops + 1, log := .seek 0 :: s2.log } (Nat.zero_le _)
+
+/-- what `find_last` does with the page found at the last "OggS", as a program … -/
+def afterFastM (serial n : Nat) (fast : Option Page) : FileM (Option Page) :=
+  match fast with
+  | some p =>
+    if p.serial = serial ∧ p.position ≠ -1 then
+      if p.last then pure (some p) else (do fseek 0; slowLastM serial (n + 1) (some p))
+    else (do fseek 0; slowLastM serial (n + 1) none)
+  | none => (do fseek 0; slowLastM serial (n + 1) none)
+
+/-- … and on the bytes -/
+def afterFastP (f : Bytes) (serial : Nat) (fast : Option Page) : Except PyErr (Option Page) :=
+  match fast with
+  | some p =>
+    if p.serial = serial ∧ p.position ≠ -1 then
+      if p.last then .ok (some p) else slowLastP f serial (f.length + 1) 0 (some p)
+    else slowLastP f serial (f.length + 1) 0 none
+  | none => slowLastP f serial (f.length + 1) 0 none
+
+theorem afterFastM_q {e : Env} (hq : Quiet e) (serial : Nat) (fast : Option Page) (s2 : FS) :
+    ∃ s', afterFastM serial s2.data.length fast e s2 = (afterFastP s2.data serial fast, s') ∧ s'.data = s2.data := by
+  unfold afterFastM afterFastP
+  cases fast with
+  | none => exact slowFrom0_q hq serial none s2
+  | some p =>
+    simp only
+    by_cases hc1 : p.serial = serial ∧ p.position ≠ -1
+    · rw [if_pos hc1, if_pos hc1]
+      by_cases hc2 : p.last = true
+      · rw [if_pos hc2, if_pos hc2]
+        exact ⟨s2, rfl, rfl⟩
+      · rw [if_neg hc2, if_neg hc2]
+        exact slowFrom0_q hq serial (some p) s2
+    · rw [if_neg hc1, if_neg hc1]
+      exact slowFrom0_q hq serial none s2
+
+theorem findLastMW_eq (w serial : Nat) :
+    findLastMW w serial = (do
+      seekEndBy (w : Int)
+      let data ← freadAll
+      match Info.OggC.rindex Info.OggC.oggS data with
+      | none => raise .mutagen
+      | some index => do
+        let n ← fileLen
+        afterFastM serial n (Info.OggC.fastPage data index)) := by
+  unfold findLastMW afterFastM
+  rfl
+
+theorem findLastPW_eq (w : Nat) (f : Bytes) (serial : Nat) :
+    findLastPW w f serial =
+      match Info.OggC.rindex Info.OggC.oggS (f.drop (f.length - w)) with
+      | none => .error .mutagen
+      | some index => afterFastP f serial (Info.OggC.fastPage (f.drop (f.length - w)) index) := by
+  unfold findLastPW afterFastP
+  rfl
+
+theorem findLastMW_q {e : Env} (hq : Quiet e) (w serial : Nat) (s : FS) :
+    ∃ s', findLastMW w serial e s = (findLastPW w s.data serial, s') ∧ s'.data = s.data := by
+  obtain ⟨s1, h1, hd1, hp1⟩ := seekEndBy_q hq w s
+  obtain ⟨s2, h2, hd2, hp2⟩ := freadAll_q hq s1 (by rw [hp1, hd1]; omega)
+  rw [hd1, hp1] at h2
+  have hs2 : s2.data = s.data := by rw [hd2, hd1]
+  rw [findLastMW_eq, findLastPW_eq]
+  simp only [bind_run, h1, h2]
+  cases hri : Info.OggC.rindex Info.OggC.oggS (s.data.drop (s.data.length - w)) with
+  | none => exact ⟨s2, rfl, hs2⟩
+  | some index =>
+    simp only [bind_run, fileLen_run]
+    have := afterFastM_q hq serial (Info.OggC.fastPage (s.data.drop (s.data.length - w)) index) s2
+    rw [hs2] at this
+    rw [hs2]
+    exact this
+
+theorem findLastM_q {e : Env} (hq : Quiet e) (serial : Nat) (s : FS) :
+    ∃ s', findLastM serial e s = (findLastP s.data serial, s') ∧ s'.data = s.data :=
+  findLastMW_q hq 65536 serial s
+
+theorem postM_q {e : Env} (hq : Quiet e) (serial : Nat) (needLast : Bool) (s : FS) :
+    ∃ s', postM serial needLast e s =
+      ((if needLast then
+          match findLastP s.data serial with
+          | .error x => .error x
+          | .ok none => .error .mutagen
+          | .ok (some l) => .ok (some l)
+        else .ok none), s') ∧ s'.data = s.data := by
+  unfold postM
+  cases needLast with
+  | false => exact ⟨s, rfl, rfl⟩
+  | true =>
+    obtain ⟨s1, h1, hd1⟩ := findLastM_q hq serial s
+    generalize findLastP s.data serial = R at h1
+    simp only [↓reduceIte, bind_run, h1]
+    cases R with
+    | error x => exact ⟨s1, rfl, hd1⟩
+    | ok v =>
+      cases v with
+      | none => exact ⟨s1, rfl, hd1⟩
+      | some l => exact ⟨s1, rfl, hd1⟩
+
+/-- the tail of the tag constructors, on the pages found -/
+def tagsTail (c : Codec) (pages : Except PyErr (List Page)) : Except PyErr (Bytes × Nat × Bytes) :=
+  match pages with
+  | .error x => .error x
+  | .ok ps =>
+    match toPackets ps false with
+    | .error x => .error x
+    | .ok [] => if c = .opus then .error .index else .error .mutagen
+    | .ok (p0 :: _) =>
+      match loadComment c (stripPrefix c p0) with
+      | .error x => .error x
+      | .ok (a, b) => .ok (stripPrefix c p0, a, b)
+
+theorem tagsTail_readComment (c : Codec) (f : Bytes) (serial pos : Nat) :
+    (match readComment c f serial pos with
+      | .error x => .error x
+      | .ok data =>
+        match loadComment c data with
+        | .error x => .error x
+        | .ok (a, b) => .ok (data, a, b)) =
+    tagsTail c (match c with
+      | .opus =>
+        match scanFrom f (fun p => decide (p.serial = serial) && startsWith magicOpusTags p) (f.length + 1) pos with
+        | .error e => .error e
+        | .ok (r, next) =>
+          match collect f r.page.serial (f.length + 1) [r] r.page next with
+          | .error e => .error e
+          | .ok rs => .ok (rs.map (·.page))
+      | _ => readLoop f serial (f.length + 1) [] pos) := by
+  cases c
+  case opus =>
+    simp only [readComment, tagsTail]
+    cases scanFrom f (fun p => decide (p.serial = serial) && startsWith magicOpusTags p) (f.length + 1) pos with
+    | error x => rfl
+    | ok v =>
+      obtain ⟨r, next⟩ := v
+      simp only
+      cases collect f r.page.serial (f.length + 1) [r] r.page next with
+      | error x => rfl
+      | ok rs =>
+        simp only
+        cases toPackets (rs.map (·.page)) false with
+        | error x => rfl
+        | ok X => cases X <;> rfl
+  all_goals
+    simp only [readComment, tagsTail]
+    cases readLoop f serial (f.length + 1) [] pos with
+    | error x => rfl
+    | ok ps =>
+      simp only
+      cases toPackets ps false with
+      | error x => rfl
+      | ok X => cases X <;> rfl
+
+theorem tagsM_tail (c : Codec) (ps : List Page) (e : Env) (s : FS) :
+    (match toPackets ps false with
+      | .error e => raise e
+      | .ok [] => if c = .opus then raise .index else raise .mutagen
+      | .ok (p0 :: _) =>
+        match loadComment c (stripPrefix c p0) with
+        | .error e => raise e
+        | .ok (padding, padData) => pure (stripPrefix c p0, padding, padData) : FileM (Bytes × Nat × Bytes)) e s =
+    (tagsTail c (.ok ps), s) := by
+  unfold tagsTail
+  simp only
+  cases toPackets ps false with
+  | error x => rfl
+  | ok X =>
+    cases X with
+    | nil => simp only; split <;> rfl
+    | cons p0 rest =>
+      simp only
+      cases loadComment c (stripPrefix c p0) with
+      | error x => rfl
+      | ok v => rfl
+
+theorem tagsM_q {e : Env} (hq : Quiet e) (c : Codec) (serial : Nat) (s : FS) (hp : s.pos ≤ s.data.length) :
+    ∃ s', tagsM c serial e s =
+      ((match readComment c s.data serial s.pos with
+        | .error x => .error x
+        | .ok data =>
+          match loadComment c data with
+          | .error x => .error x
+          | .ok (a, b) => .ok (data, a, b)), s') ∧ s'.data = s.data := by
+  rw [tagsTail_readComment]
+  cases c
+  case opus =>
+    simp only [tagsM, bind_run, fileLen_run]
+    obtain ⟨he, ho⟩ := scanM_q hq (fun p => decide (p.serial = serial) && startsWith magicOpusTags p) (s.data.length + 1) s hp
+    cases hsc : scanFrom s.data (fun p => decide (p.serial = serial) && startsWith magicOpusTags p) (s.data.length + 1) s.pos with
+    | error x =>
+      obtain ⟨s1, h1, hd1⟩ := he x hsc
+      exact ⟨s1, by rw [h1]; rfl, hd1⟩
+    | ok v =>
+      obtain ⟨r, next⟩ := v
+      obtain ⟨s1, h1, hd1, hp1, hle⟩ := ho r next hsc
+      obtain ⟨s2, h2, hd2⟩ := collectM_q hq r.page.serial (s.data.length + 1) [r] r.page s1 (by rw [hp1, hd1]; exact hle)
+      rw [hd1, hp1] at h2
+      simp only [List.map_cons, List.map_nil] at h2
+      rw [h1]; simp only; rw [h2]
+      cases collect s.data r.page.serial (s.data.length + 1) [r] r.page next with
+      | error x => exact ⟨s2, rfl, by rw [hd2, hd1]⟩
+      | ok rs => exact ⟨s2, tagsM_tail .opus _ e s2, by rw [hd2, hd1]⟩
+  all_goals
+    simp only [tagsM, bind_run, fileLen_run]
+    obtain ⟨s1, h1, hd1⟩ := readLoopM_q hq serial (s.data.length + 1) [] s hp
+    rw [h1]
+    cases readLoop s.data serial (s.data.length + 1) [] s.pos with
+    | error x => exact ⟨s1, rfl, hd1⟩
+    | ok ps => exact ⟨s1, tagsM_tail _ _ e s1, hd1⟩
+
+
+/-- the page the info constructor stops on and the position behind it, on the bytes -/
+def infoFound (c : Codec) (f : Bytes) : Except PyErr (Page × Nat) :=
+  match c with
+  | .vorbis =>
+    match readPage f 0 with
+    | .error e => .error e
+    | .ok (p0, next) =>
+      if p0.packets = [] then .error .mutagen
+      else if startsWith magicVorbisId p0 then .ok (p0, next)
+      else (scanFrom f (startsWith magicVorbisId) (f.length + 1) next).map fun x => (x.1.page, x.2)
+  | _ => (scanFrom f (startsWith c.idMagic) (f.length + 1) 0).map fun x => (x.1.page, x.2)
+
+theorem infoP_eq (c : Codec) (f : Bytes) :
+    infoP c f = match infoFound c f with
+      | .error e => .error e
+      | .ok (page, pos) =>
+        match idCheck c page with
+        | .error e => .error e
+        | .ok needLast => .ok (page, needLast, pos) := by
+  unfold infoP infoFound
+  rfl
+
+/-- the scanning part of the info constructor as a program -/
+def infoFoundM (c : Codec) (n : Nat) : FileM Page :=
+  match c with
+  | .vorbis => do
+    let r ← readPageM
+    if r.1.packets = [] then raise .mutagen
+    else if startsWith magicVorbisId r.1 then pure r.1
+    else do
+      let r' ← scanM (startsWith magicVorbisId) (n + 1)
+      pure r'.1
+  | _ => do
+    let r ← scanM (startsWith c.idMagic) (n + 1)
+    pure r.1
+
+theorem infoM_eq (c : Codec) : infoM c = (do
+    let n ← fileLen
+    let page ← infoFoundM c n
+    match idCheck c page with
+    | .error e => raise e
+    | .ok needLast => pure (page, needLast)) := by
+  unfold infoM infoFoundM
+  rfl
+
+theorem scanFound_q {e : Env} (hq : Quiet e) (pred : Page → Bool) (s : FS) (hp : s.pos ≤ s.data.length) :
+    ∃ s', s'.data = s.data ∧
+      match (scanFrom s.data pred (s.data.length + 1) s.pos).map fun x => (x.1.page, x.2) with
+      | .error x => (do let r ← scanM pred (s.data.length + 1); Pure.pure r.1 : FileM Page) e s = (.error x, s')
+      | .ok (page, pos) => (do let r ← scanM pred (s.data.length + 1); Pure.pure r.1 : FileM Page) e s = (.ok page, s') ∧
+          s'.pos = pos ∧ pos ≤ s.data.length := by
+  obtain ⟨he, ho⟩ := scanM_q hq pred (s.data.length + 1) s hp
+  cases hsc : scanFrom s.data pred (s.data.length + 1) s.pos with
+  | error x =>
+    obtain ⟨s1, h1, hd1⟩ := he x hsc
+    exact ⟨s1, hd1, by simp only [Except.map, bind_run, h1]⟩
+  | ok v =>
+    obtain ⟨r, next⟩ := v
+    obtain ⟨s1, h1, hd1, hp1, hle⟩ := ho r next hsc
+    exact ⟨s1, hd1, by simp only [Except.map, bind_run, h1, pure_run]; exact ⟨trivial, hp1, hle⟩⟩
+
+theorem infoFoundM_q {e : Env} (hq : Quiet e) (c : Codec) (s : FS) (hp0 : s.pos = 0) :
+    ∃ s', s'.data = s.data ∧
+      match infoFound c s.data with
+      | .error x => infoFoundM c s.data.length e s = (.error x, s')
+      | .ok (page, pos) => infoFoundM c s.data.length e s = (.ok page, s') ∧ s'.pos = pos ∧ pos ≤ s.data.length := by
+  have hp : s.pos ≤ s.data.length := by omega
+  cases c
+  case vorbis =>
+    simp only [infoFound, infoFoundM, bind_run]
+    obtain ⟨he, ho⟩ := readPageM_step hq s hp
+    rw [hp0] at he ho
+    cases hr : readPage s.data 0 with
+    | error x =>
+      obtain ⟨s1, h1, hd1⟩ := he x hr
+      exact ⟨s1, hd1, by simp only [h1]⟩
+    | ok v =>
+      obtain ⟨p0, next⟩ := v
+      obtain ⟨s1, h1, hd1, hp1, hle⟩ := ho p0 next hr
+      simp only [h1]
+      by_cases hpk : p0.packets = []
+      · exact ⟨s1, hd1, by simp only [hpk, ↓reduceIte, raise_run]⟩
+      · simp only [hpk, ↓reduceIte]
+        by_cases hm : startsWith magicVorbisId p0 = true
+        · exact ⟨s1, hd1, by simp only [hm, ↓reduceIte, pure_run]; exact ⟨trivial, hp1, hle⟩⟩
+        · simp only [hm, Bool.false_eq_true, ↓reduceIte]
+          obtain ⟨s2, hd2, h2⟩ := scanFound_q hq (startsWith magicVorbisId) s1 (by rw [hp1, hd1]; exact hle)
+          rw [hd1, hp1] at h2
+          exact ⟨s2, by rw [hd2, hd1], h2⟩
+  all_goals
+    simp only [infoFound, infoFoundM]
+    rw [← hp0]
+    exact scanFound_q hq _ s hp
+
+theorem infoM_q {e : Env} (hq : Quiet e) (c : Codec) (s : FS) (hp0 : s.pos = 0) :
+    ∃ s', s'.data = s.data ∧
+      match infoP c s.data with
+      | .error x => infoM c e s = (.error x, s')
+      | .ok (page, needLast, pos) => infoM c e s = (.ok (page, needLast), s') ∧ s'.pos = pos ∧ pos ≤ s.data.length := by
+  obtain ⟨s1, hd1, h1⟩ := infoFoundM_q hq c s hp0
+  rw [infoP_eq, infoM_eq]
+  simp only [bind_run, fileLen_run]
+  cases hf : infoFound c s.data with
+  | error x =>
+    rw [hf] at h1
+    exact ⟨s1, hd1, by simp only [h1]⟩
+  | ok v =>
+    obtain ⟨page, pos⟩ := v
+    rw [hf] at h1
+    simp only [h1.1]
+    cases idCheck c page with
+    | error x => exact ⟨s1, hd1, rfl⟩
+    | ok nl => exact ⟨s1, hd1, rfl, h1.2.1, h1.2.2⟩
+
+theorem loadBodyM_q {e : Env} (hq : Quiet e) (c : Codec) (s : FS) (hp0 : s.pos = 0) :
+    ∃ s', loadBodyM c e s = (loadRaw c s.data, s') ∧ s'.data = s.data := by
+  obtain ⟨s1, hd1, h1⟩ := infoM_q hq c s hp0
+  unfold loadBodyM loadRaw
+  simp only [bind_run]
+  cases hi : infoP c s.data with
+  | error x =>
+    rw [hi] at h1
+    exact ⟨s1, by simp only [h1], hd1⟩
+  | ok v =>
+    obtain ⟨page, needLast, pos⟩ := v
+    rw [hi] at h1
+    obtain ⟨h1a, h1b, h1c⟩ := h1
+    simp only [h1a]
+    obtain ⟨s2, h2, hd2⟩ := tagsM_q hq c page.serial s1 (by rw [h1b, hd1]; exact h1c)
+    rw [hd1, h1b] at h2
+    simp only [h2]
+    cases readComment c s.data page.serial pos with
+    | error x => exact ⟨s2, rfl, by rw [hd2, hd1]⟩
+    | ok data =>
+      simp only
+      cases loadComment c data with
+      | error x => exact ⟨s2, rfl, by rw [hd2, hd1]⟩
+      | ok w =>
+        obtain ⟨padding, padData⟩ := w
+        simp only
+        obtain ⟨s3, h3, hd3⟩ := postM_q hq page.serial needLast s2
+        rw [hd2, hd1] at h3
+        simp only [h3]
+        have hd : s3.data = s.data := by rw [hd3, hd2, hd1]
+        cases needLast with
+        | false => exact ⟨s3, rfl, hd⟩
+        | true =>
+          simp only [↓reduceIte]
+          cases findLastP s.data page.serial with
+          | error x => exact ⟨s3, rfl, hd⟩
+          | ok o =>
+            cases o with
+            | none => exact ⟨s3, rfl, hd⟩
+            | some l => exact ⟨s3, rfl, hd⟩
+
+/-- WITHOUT FAULTS (any capacity), from position 0: `OggX(fileobj)` returns what the pure load returns on the
+bytes of the file, and the file is what it was — for every byte string -/
+theorem loadM_q {e : Env} (hq : Quiet e) (c : Codec) (s : FS) (hp0 : s.pos = 0) :
+    ∃ s', loadM c e s = (loadPure c s.data, s') ∧ s'.data = s.data := by
+  unfold loadM verifyReadM
+  simp only [bind_run, tryCatch, fread_q hq, pure_run]
+  have hz : (readAt s.data s.pos 0).length = 0 := by simp [readAt]
+  obtain ⟨s1, h1, hd1⟩ := loadBodyM_q hq c
+    { data := s.data, pos := s.pos + (readAt s.data s.pos 0).length, ops := s.ops + 1, log := .read 0 :: s.log }
+    (by simp only [hp0, readAt, List.take_zero, List.length_nil])
+  simp only at h1 hd1
+  rw [h1]
+  unfold loadPure
+  cases loadRaw c s.data with
+  | ok v => exact ⟨s1, rfl, hd1⟩
+  | error x =>
+    simp only
+    by_cases hc : loadCaught x = true
+    · simp only [hc, ↓reduceIte, raise_run]; exact ⟨s1, rfl, hd1⟩
+    · simp only [hc, Bool.false_eq_true, ↓reduceIte]; exact ⟨s1, rfl, hd1⟩
+
 
 end Mutagen.OggInj
